@@ -168,15 +168,15 @@ extern "C" void harness() {
         CHECK(g == before, "two histories that denote the same graph compare equal");
     }
 #elif Q == 10
-    // weighted classes: an edge of weight 2^70 added and removed again, or a weight set to 2^70 and back, leaves the same graph; the
-    // running total has meanwhile been rounded (2^70 + small is not representable), and the verdict must not depend on that history
+    // weighted classes: an edge of weight 2^200 added and removed again, or a weight set to 2^200 and back, leaves the same graph; the
+    // running total has meanwhile been rounded (2^200 + small is not representable), and the verdict must not depend on that history
 #if KIND >= 4
     if (NG > 0) {
         G before = g;
         unsigned a = nd(NG), b = nd(NG);
-        const double BIG = 1180591620717411303424.0;   // 2^70
-        if (A.C[a][b]) { double w = A.lab[a][b]; g.setEdgeWeight(a, b, BIG); g.setEdgeWeight(a, b, w); REACH("a weight was set to 2^70 and restored"); }
-        else { g.addEdge(a, b, BIG); g.removeEdge(a, b); REACH("an edge of weight 2^70 was added and removed again"); }
+        const double BIG = 1606938044258990275541962092341162602522202993782792835301376.0;   // 2^200: absorbs any small total both in x87 extended (64-bit mantissa) and in CBMC's long double (binary128)
+        if (A.C[a][b]) { double w = A.lab[a][b]; g.setEdgeWeight(a, b, BIG); g.setEdgeWeight(a, b, w); REACH("a weight was set to 2^200 and restored"); }
+        else { g.addEdge(a, b, BIG); g.removeEdge(a, b); REACH("an edge of weight 2^200 was added and removed again"); }
         CHECK(g == before, "two histories that denote the same weighted graph compare equal, whatever rounding the running total went through");
         CHECK(!(g != before), "!= is the negation of ==");
     }
